@@ -92,10 +92,37 @@ def gen_C02(tier, seed):
             for d in (-1, 0, 1):
                 if I64_MIN <= k + d <= I64_MAX:
                     out.append(f"unit_mul {u} {k + d}")
+    # compose: field pools incl. u64::MAX in every position; std::time conversions
+    r = g.r
+    U = [0, 1, 23, 24, 59, 60, 999, 1000, 106751, 106752, 11967969, 11967970, 2**32, 2**53, 2**63 - 1, 2**63, U64_MAX - 1, U64_MAX]
+    for sg in (-1, 0, 1):
+        for pos in range(7):
+            for v in U:
+                f = [0] * 7; f[pos] = v
+                out.append(f"compose {sg} " + " ".join(map(str, f)))
+        out.append(f"compose {sg} " + " ".join([str(U64_MAX)] * 7))
+        out.append(f"compose {sg} 106751 23 47 16 854 775 807")
+        out.append(f"compose {sg} 106751 23 47 16 854 775 808")
+        out.append(f"compose {sg} 11967969 23 59 59 999 999 999")
+        out.append(f"compose {sg} 11967970 0 0 0 0 0 0")
+        out.append(f"compose {sg} 11967970 0 0 0 0 0 1")
+    for a in pool:
+        out.append(f"to_std {p2(a)}")
+        out.append(f"compose_decompose {p2(a)}")
+    for secs in [0, 1, 59, 10**9, MAXV // 10**9 - 1, MAXV // 10**9, MAXV // 10**9 + 1, 2**63, U64_MAX - 1, U64_MAX]:
+        for sub in (0, 1, 999999999):
+            out.append(f"from_std {secs} {sub}")
     n = budget(tier, 60000, 3000000)
     for _ in range(n):
         k = g.r.random()
-        if k < 0.25:
+        if k < 0.1:
+            f = [r.choice([0, 0, r.randint(0, 100), r.randint(0, 10**6), r.choice(U), r.randint(0, U64_MAX)]) for _ in range(7)]
+            out.append(f"compose {r.choice([-1, 0, 1, -128, 127])} " + " ".join(map(str, f)))
+        elif k < 0.17:
+            out.append(f"{r.choice(['to_std', 'compose_decompose'])} {p2(g.rand_parts())}")
+        elif k < 0.2:
+            out.append(f"from_std {r.choice([r.randint(0, 2 * MAXV // 10**9), r.randint(0, U64_MAX), r.randint(0, 10**10)])} {r.randint(0, 999999999)}")
+        elif k < 0.25:
             out.append(f"from_total {g.rand_i128()}")
         elif k < 0.35:
             out.append(f"from_trunc {g.rand_i64()}")
@@ -846,7 +873,7 @@ def gen_C11(tier, seed):
         else:
             v = r.randint(MINV, MAXV - 1)
         d = parts_of(v)
-        out.append(f"{r.choice(['decompose', 'disp_dur', 'disp_dur'])} {p2(d)}")
+        out.append(f"{r.choice(['decompose', 'disp_dur', 'disp_dur', 'compose_decompose'])} {p2(d)}")
     return out
 
 
